@@ -42,6 +42,19 @@
 //     evaluation (about 8.9 sigma at r = 0.5, relatively wider where the
 //     binomial is Poisson-like and "6 sigma" would be exceeded by chance once
 //     in ~1e6 cases). The threshold is never re-implemented.
+//   - "the sampled share tracks r ... for all trace IDs": the share is also
+//     judged (same bound) over STRUCTURED populations - trailing eight bytes
+//     pseudo-random, leading eight bytes zero (64-bit IDs padded to 128 bits),
+//     all ones, a constant, an epoch prefix, a counter, one bit, a copy of the
+//     trailing half - because the documentation (CHANGELOG #3557: "uses the
+//     rightmost bits for sampling decisions ... fixes random sampling when
+//     using ID generators like xray.IDGenerator"; W3C Trace Context on
+//     left-padded 64-bit IDs) says which half carries the randomness; directly
+//     and through the tracer (custom IDGenerator roots, WithNewRoot, children
+//     of supplied remote / local parents, the matching ParentBased option) and,
+//     for the SDK's default IDGenerator ("from a randomly-chosen sequence"),
+//     over its own root spans. Nothing is asserted about populations whose
+//     trailing half is not uniform. See populations_test.go.
 //   - "it reaches exporters exactly when sampled" holds for every started
 //     span whatever its caller does with it between Start and End and
 //     whatever timestamps the caller claims (explicit start / end times,
@@ -98,6 +111,11 @@ type AlgCase struct {
 	// OTEL_TRACES_SAMPLER_ARG; each must agree, decision by decision, with the
 	// programmatic TraceIDRatioBased(r) for the r its argument text denotes.
 	Env []EnvRatio `json:"env,omitempty"`
+	// Pops: structured populations of trace IDs (pseudo-random trailing half,
+	// shaped leading half), each judged at one ratio over one route (direct
+	// calls, root spans with a custom IDGenerator, children of supplied
+	// parents); see populations_test.go.
+	Pops []Pop `json:"pops,omitempty"`
 }
 
 // envBlockN is how many of the block's trace IDs are also put to the
@@ -203,6 +221,21 @@ func genAlg(t *rapid.T) AlgCase {
 	for i := 0; i < nr; i++ {
 		c.Ratios = append(c.Ratios, genRatio(t, true, fmt.Sprintf("r%d", i)))
 	}
+	// trace IDs next to where a threshold for one of the case's ratios would
+	// sit, in either half
+	var interior []float64
+	for _, rf := range c.Ratios {
+		if r := float64(rf); r > 0 && r < 1 {
+			interior = append(interior, r)
+		}
+	}
+	if len(interior) > 0 {
+		nth := rapid.IntRange(0, 3).Draw(t, "nthreshold_tids")
+		for i := 0; i < nth; i++ {
+			r := rapid.SampledFrom(interior).Draw(t, fmt.Sprintf("thr%d_of", i))
+			c.TIDs = append(c.TIDs, genThresholdTID(t, r, fmt.Sprintf("thr%d", i)))
+		}
+	}
 	// a neighbour of one of the ratios: pairs r < r' that are one ulp apart
 	if rapid.Bool().Draw(t, "neighbour") {
 		i := rapid.IntRange(0, len(c.Ratios)-1).Draw(t, "neighbour_of")
@@ -216,6 +249,10 @@ func genAlg(t *rapid.T) AlgCase {
 	}
 	c.BlockSeed = rapid.Uint64().Draw(t, "block_seed")
 	c.BlockRatios = []vk.F64{genRatio(t, false, "br0"), genRatio(t, false, "br1")}
+	c.Pops = append(c.Pops, genPop(t, "pop0", true))
+	if rapid.Bool().Draw(t, "second_pop") {
+		c.Pops = append(c.Pops, genPop(t, "pop1", false))
+	}
 	ne := rapid.IntRange(0, 2).Draw(t, "nenv")
 	for i := 0; i < ne; i++ {
 		e := EnvRatio{
@@ -551,6 +588,10 @@ func runAlg(c AlgCase) ([]vk.Violation, vk.Info) {
 		}
 	}
 
+	for _, p := range c.Pops {
+		runPop(p, bad, &info)
+	}
+
 	for _, e := range c.Env {
 		runAlgEnv(c, e, tids, bad, &info)
 	}
@@ -570,6 +611,14 @@ func runAlg(c AlgCase) ([]vk.Violation, vk.Info) {
 		info.ClassIf(hi == 0 && lo == 0, "tid:all_zero")
 		info.ClassIf(hi == math.MaxUint64 && lo == math.MaxUint64, "tid:all_ones")
 		info.ClassIf(lo>>1 == 1<<62 || lo>>1 == 1<<62-1, "tid:at_half_boundary")
+		for _, rf := range c.Ratios {
+			if r := float64(rf); r > 0 && r < 1 {
+				near := func(x, v uint64) bool { return v > 16 && x-v+8 <= 16 }
+				v63, v64 := uint64(math.Ldexp(r, 63))<<1, uint64(math.Ldexp(r, 64))
+				info.ClassIf(near(lo, v63) || near(lo, v64), "tid:trailing_half_next_to_a_ratio_of_the_case")
+				info.ClassIf(near(hi, v63) || near(hi, v64), "tid:leading_half_next_to_a_ratio_of_the_case")
+			}
+		}
 	}
 	for _, v := range c.Variants {
 		info.ClassIf(v.Parent == "ctx" && len(v.PSC.TS) > 0, "variant:parent_with_tracestate")
@@ -592,7 +641,7 @@ func runAlg(c AlgCase) ([]vk.Violation, vk.Info) {
 func TestSamplerAlgebra(t *testing.T) {
 	vk.Run(t, vk.Spec[AlgCase]{
 		Property: "C09", Check: "sampler_algebra",
-		Rule: "1..9 trace IDs (mixed 128-bit, low/high half zero, all ones, all zero, boundary values of the low half), 2..7 ratios from {0,-0,tiny,2^-k,0.5,1-eps,1,negative,>1,NaN,m/2^j +-ulp,uniform}, 1..3 variants of the irrelevant parameters (name, kind, attributes, links, nil/empty/local/remote parent with flags and tracestate) and a block of 4096 hash-derived trace IDs judged at two ratios; 0..2 ratio samplers configured through OTEL_TRACES_SAMPLER(_ARG) (traceidratio / parentbased_traceidratio, the ratio spelled in 'g'/'f'/'e' forms, signs, leading zeros, blanks, name in any letter case) compared decision by decision with TraceIDRatioBased of the denoted ratio on the case's trace IDs and 128 block IDs; " +
+		Rule: "1..9 trace IDs (mixed 128-bit, low/high half zero, all ones, all zero, boundary values of the low half), 2..7 ratios from {0,-0,tiny,2^-k,0.5,1-eps,1,negative,>1,NaN,m/2^j +-ulp,uniform}, 1..3 variants of the irrelevant parameters (name, kind, attributes, links, nil/empty/local/remote parent with flags and tracestate) and a block of 4096 hash-derived trace IDs judged at two ratios; 0..3 trace IDs one of whose halves sits within +-3 of a ratio of the case scaled to 2^63 / 2^64; 1..2 structured populations (4096 direct / 1024 through the tracer: trailing eight bytes pseudo-random, leading eight bytes zero / ones / constant / epoch prefix / counter / single bit / copy of the trailing half / random) judged at one ratio each as direct calls, custom-IDGenerator roots (bare, ParentBased root, WithNewRoot over a parent), children of supplied remote / local parents (bare, matching ParentBased option) or default-IDGenerator roots; 0..2 ratio samplers configured through OTEL_TRACES_SAMPLER(_ARG) (traceidratio / parentbased_traceidratio, the ratio spelled in 'g'/'f'/'e' forms, signs, leading zeros, blanks, name in any letter case) compared decision by decision with TraceIDRatioBased of the denoted ratio on the case's trace IDs and 128 block IDs; " +
 			"non-trivial = some pair r < r' decides differently on some trace ID; distinct = distinct case encodings",
 		Quick: 1000, Thorough: 50000,
 		Gen: genAlg, Run: runAlg,
